@@ -144,13 +144,46 @@ def main():
 
     exit_code = 0
     nviol = 0
-    if violations:
-        violations.sort(key=lambda f: f.size)
-        best = violations[0]
+    strong = [f for f in violations if not getattr(f, 'weak', False)]
+    weak = [f for f in violations if getattr(f, 'weak', False)]
+    if weak and not strong and tier_for_search == 'quick' and not args.replay:
+        # a correspondence about something the property does not prescribe broke: search deeper (thorough budget,
+        # direct oracles) for an input on which the property itself fails
+        try:
+            ctx2 = Ctx(pid, 'thorough', seed, driver)
+            ctx2.tier_label = tier
+            deeper = mod.run(ctx2)
+            for f in deeper.failures:
+                sig = getattr(f, 'signature', None)
+                if not getattr(f, 'weak', False) and not (sig is not None and sig in known_sigs):
+                    strong.append(f)
+            outcome.evaluations += deeper.evaluations
+            outcome.extra['deeper_search_evaluations'] = deeper.evaluations
+        except Broken as e:
+            print('BROKEN: %s' % e)
+            return 2
+    if strong:
+        violations = strong + weak
+    if strong:
+        strong.sort(key=lambda f: f.size)
+        best = strong[0]
         path = common.write_replay(pid, best, seed, {'other_failures': len(violations) - 1,
                                                     'unproved_obligations': unproved})
         print('VIOLATION property=%s replay=%s' % (pid, os.path.relpath(path, common.VERIF)))
         nviol = len(violations)
+        exit_code = 1
+    elif weak:
+        weak.sort(key=lambda f: f.size)
+        best = weak[0]
+        best.text = (best.text + ' ' if best.text else '') + (
+            'CORRESPONDENCE NO LONGER CHECKS: %s (signature %s). The failing-input search (%d cases, direct oracles) '
+            'found no input on which the implementation violates the property itself; the case recorded here is where '
+            'model and implementation differ.' % (best.theorem, getattr(best, 'signature', '?'), outcome.evaluations))
+        path = common.write_replay(pid, best, seed, {'other_failures': len(weak) - 1, 'unproved_obligations': unproved,
+                                                    'correspondence_broken': sorted(set(
+                                                        str(getattr(f, 'signature', '?')) for f in weak))})
+        print('VIOLATION property=%s replay=%s no-failing-input-found' % (pid, os.path.relpath(path, common.VERIF)))
+        nviol = len(weak)
         exit_code = 1
     elif unproved:
         f = Failure('unproved', {'unproved': unproved, 'build_log': state.build_log[-3000:],
